@@ -172,6 +172,20 @@ CLAIMS['C13'] = dict(
     technique="Lean 4 proof (equivalence of the two io models by induction over operation sequences) + 4-way differential transcripts",
     design_ref="§5 C13")
 
+CLAIMS['C15'] = dict(
+    text=("State-machine model of the MaybeUninit buffer and its drop guard (slots, init_count, events) following "
+          "de/mod.rs:780-828 step by step, with kernel-checked theorems for EVERY length N and EVERY plan of element "
+          "results: C15_failure_at_k (error or panic at position k: exactly elements 0..k-1 constructed, each dropped "
+          "exactly once in index order, element k never constructed, nothing handed over), C15_success (all handed to "
+          "the caller once, the guard drops nothing), C15_no_uninit_touch (no uninitialised slot is read or dropped), "
+          "C15_exactly_once (constructions = drops + hand-overs per element). Differential run: the real "
+          "<[T; N]>::deserialize_reader with a heap-owning instrumented element for all N in 0..=33 and 64, every "
+          "failing position, error return and panic; the ledger is compared event for event with the model; oracle: "
+          "every constructed element released exactly once. Partial: reading uninitialised memory is undefined "
+          "behaviour a ledger cannot see; UB-freedom of the unsafe block itself is not proved."),
+    technique="Lean 4 proof (loop invariant over a state machine, all N and plans) + event-for-event differential check with an instrumented element type",
+    design_ref="§5 C15")
+
 NOT_YET = {
 }
 
